@@ -219,7 +219,8 @@ PROPS = {
                 [("GcpVerif.Proofs.PoolAffinity", "GcpVerif.Pool." + n) for n in ["bound_stays", "bound_pick_home", "bound_call_travels_home", "stable_step_key"]]),
     "C02": dict(pool_prop([], ["placement and increment are one atomic step of the model: for picks on one picker this is the picker mutex held exclusively around the scan (per-run obligation c02_scan_exclusive on the regenerated access table; the pick2 operation of the harness runs two picks concurrently with the balancer lock stalled and the model must explain the outcome by some order of two atomic picks); picks on different pickers may interleave scan and increment"]),
                 theorems=pool_thms(["streams_exact", "streams_nonneg", "streams_zero_when_idle", "run_inv", "leastBusy_spec", "leastBusy_first_on_tie", "below_watermark_places"]) +
-                [("GcpVerif.Proofs.PickAtomic", "GcpVerif.Sync.c02_scan_exclusive"), ("GcpVerif.Proofs.PickAtomic", "GcpVerif.Sync.c02_scan_present")]),
+                [("GcpVerif.Proofs.PickAtomic", "GcpVerif.Sync.c02_scan_exclusive"), ("GcpVerif.Proofs.PickAtomic", "GcpVerif.Sync.c02_scan_present")] +
+                [("GcpVerif.Proofs.PoolLoad", "GcpVerif.Pool." + n) for n in ["plain_pick_least_loaded", "published_lists_ready", "getLeastBusy_spec"]]),
     "C03": dict(pool_prop([], ["size bound: minSize <= maxSize and no Shutdown report for a current pool member (RunOk; known finding K6 outside, kernel-checked witness size_bound_needs_contract)"]),
                 theorems=pool_thms(["growth_only_when_saturated", "at_max_places_anyway", "below_watermark_places"]) +
                 [("GcpVerif.Proofs.PoolSlots", "GcpVerif.Pool." + n) for n in ["size_bounded", "slots_bijective", "pool1_run", "size_bound_needs_contract"]] +
